@@ -16,11 +16,13 @@
    (C01_recursive_map_to_is_mapped_map_to), whose refinement to the tree operation of the
    recursive kind is C01_map_to_of_either_kind_refines_tree.  Whole histories with clean-ups run on
    the MappedPageTable memory model exactly as on the tree model
-   (C01_mapped_memory_model_equals_tree_model).  Partial: the level-4 table of a recursive
-   hierarchy is not a `rep` of a tree (its recursive slot points to itself), so the composition of
-   these two results at the level-4 table, and RecursivePageTable's clean-up, are checked by the
+   (C01_mapped_memory_model_equals_tree_model).  For RecursivePageTable the same is proved for
+   histories of map / unmap / update_flags / parent-flag calls on pages outside the recursive slot
+   (C01_recursive_step_refines_tree, C01_recursive_raw_memory_walk_is_history_dictated): the
+   level-4 table is represented partially (every slot but the recursive one, Paging/RecRefineTop.v),
+   the recursive slot is shown untouched.  Partial: RecursivePageTable's clean-up is checked by the
    correspondence, not proved. *)
-From X86 Require Import Paging.Mapped Paging.Tree Paging.TreeProofs Paging.Refine Paging.RefineOps Paging.RefineParent Paging.RefineWalk Paging.RefineHistory Paging.RefineClean Paging.RefineHistoryClean Paging.Recursive Paging.RecResolve Paging.RecRead Paging.RecMap Paging.RefineFull Paging.TreeClean Paging.Run.
+From X86 Require Import Paging.Mapped Paging.Tree Paging.TreeProofs Paging.Refine Paging.RefineOps Paging.RefineParent Paging.RefineWalk Paging.RefineHistory Paging.RefineClean Paging.RefineHistoryClean Paging.Recursive Paging.RecResolve Paging.RecRead Paging.RecMap Paging.RecRefineTop Paging.RecRefine Paging.RefineFull Paging.TreeClean Paging.Run.
 Open Scope Z_scope.
 
 (* after ANY history from the empty level-4 table, every index path reaches exactly the leaf the
@@ -286,3 +288,33 @@ Theorem C01_mapped_memory_model_equals_tree_model : forall rootf allocs ri ops,
     Inv s' ch' /\ wf_children ch'.
 Proof. exact mapped_model_refines_tree_model. Qed.
 Print Assumptions C01_mapped_memory_model_equals_tree_model.
+
+(* RecursivePageTable, one call on table memory with an intact recursive slot: the result is the
+   tree operation's of the recursive kind, the memory afterwards represents its tree, the
+   recursive slot and the invariant are preserved *)
+Theorem C01_recursive_step_refines_tree : forall r s ch fr o,
+  rInv r s ch -> mop_ok o -> p4_index (mop_page o) <> r ->
+  exists s' out ch', rmem_apply s o = Ok (s', out) /\
+    apply_op true r (tst ch s fr) (to_top o) = (tst ch' s' fr, out) /\ rInv r s' ch'.
+Proof. exact rstep_refines. Qed.
+Print Assumptions C01_recursive_step_refines_tree.
+
+(* C01 at the level of raw table memory for RecursivePageTable: after any history of map / unmap /
+   update_flags / parent-flag calls (pages outside the recursive slot) from a level-4 table that
+   holds only its recursive entry, the hardware walk of every address outside the recursive slot
+   returns what the successful calls dictate *)
+Theorem C01_recursive_raw_memory_walk_is_history_dictated : forall rootf allocs r ops s' outs,
+  0 <= r < 512 -> tframe rootf -> sep (init_pstate rootf allocs r) rootf empty_children ->
+  Forall mop_ok ops -> Forall (fun o => p4_index (mop_page o) <> r) ops ->
+  rmem_run (rinit rootf allocs r) ops = Ok (s', outs) ->
+  forall va, p4_index va <> r ->
+    match dictated (fun _ => None) (map to_top ops) outs (idx_list 0 va) with
+    | None => hw_walk s' va = None
+    | Some (w, n) =>
+        exists wr us,
+          enc_walk (hw_walk s' va) =
+            [leaf_addr w - leaf_addr w mod size_of_rem n + Z.land va (size_of_rem n - 1);
+             size_of_rem n; w; b2z wr; b2z us]
+    end.
+Proof. exact recursive_memory_walk_is_history_dictated. Qed.
+Print Assumptions C01_recursive_raw_memory_walk_is_history_dictated.
